@@ -101,9 +101,9 @@ def harnesses(tier):
     nl = 6 if q else 9
     hs = [
         Harness('opl_reader_order', 'chunk', h_opl_order, setup=C06.setup_env,
-                jobs=[dict(nlines=nl, single=s, cuts=c) for s in (0, 1) for c in (('singles',) if q else ('singles', 'pairs'))],
+                jobs=[dict(nlines=nl, single=s, cuts='singles') for s in (0, 1)] + ([] if q else [dict(nlines=4, single=s, cuts='pairs') for s in (0, 1)]),
                 desc='OPLParser (line splitting, opl_parse_line, maybe_new_buffer / flush_nested_buffer / flush_final_buffer; 256-byte initial buffer so that nested buffers occur) on a %d-object file of mixed types: for every entity mask (all subsets of node/way/relation/changeset), buffers_type any/single and every single cut of the byte stream, the delivered buffers flattened in delivery order contain exactly the selected objects, once each, in file order' % nl,
-                bounds='one concrete OPL file of %d objects; all 16 entity masks; single cuts%s' % (nl, '' if q else ' and pairs of cuts'),
+                bounds='one concrete OPL file of %d objects; all 16 entity masks; single cuts%s' % (nl, '' if q else '; pairs of cuts on the first 4 objects'),
                 testgen=lambda rnd: [dict(mask=rnd.choice([0x17, 0x01, 0x12, 0x04, 0x00]), **{'cut%d' % k: 0 for k in range(1, 200)})][:0]),
     ]
     hs.append(Harness('pbf_block_mask', 'decode', h_pbf_mask, jobs=[dict(groups=g) for g in ('nwr', 'wn', 'rw', 'n', 'wr')],
